@@ -516,3 +516,101 @@ def result_rows(prog, body, positional=False):
             res = df.canon(c.prov.call_tree(d[1]), nb)
         rows.append((res, sorted(lit_canon(l, body, positional) for l in c.must_literals(bi))))
     return sorted(rows)
+
+
+# ---------------------------------------------------------------------------------------------------------------
+# Normal form of decision rows (used when rows are compared with a spec table): the same decision can be written
+# with merged or split match arms, with range patterns in any order, with redundant exclusions. Rows are therefore
+# compared after (a) all integer constraints on one subject are folded into ONE interval-set literal over the
+# subject's integer type, and (b) a literal `X in {A,B}` is split into one row per variant.
+_INT_TY = {"i8": (-2 ** 7, 2 ** 7 - 1), "i16": (-2 ** 15, 2 ** 15 - 1), "i32": (-2 ** 31, 2 ** 31 - 1),
+           "i64": (-2 ** 63, 2 ** 63 - 1), "i128": (-2 ** 127, 2 ** 127 - 1), "isize": (-2 ** 63, 2 ** 63 - 1),
+           "u8": (0, 2 ** 8 - 1), "u16": (0, 2 ** 16 - 1), "u32": (0, 2 ** 32 - 1), "u64": (0, 2 ** 64 - 1),
+           "u128": (0, 2 ** 128 - 1), "usize": (0, 2 ** 64 - 1)}
+_FLIP = {"le": "ge", "lt": "gt", "ge": "le", "gt": "lt", "eq": "eq", "ne": "ne"}
+
+
+def _subj_range(subj):
+    import re
+    m = re.search(r"cast<([iu](?:\d+|size))>", subj)
+    return _INT_TY.get(m.group(1)) if m else (-2 ** 127, 2 ** 127)
+
+
+def _iv_apply(ivs, op, c):
+    out = []
+    for (a, b) in ivs:
+        if op == "le":
+            b = min(b, c)
+        elif op == "lt":
+            b = min(b, c - 1)
+        elif op == "ge":
+            a = max(a, c)
+        elif op == "gt":
+            a = max(a, c + 1)
+        elif op == "eq":
+            a, b = max(a, c), min(b, c)
+        elif op == "ne":
+            if a <= c <= b:
+                if a <= c - 1:
+                    out.append((a, c - 1))
+                if c + 1 <= b:
+                    out.append((c + 1, b))
+                continue
+        if a <= b:
+            out.append((a, b))
+    return out
+
+
+def norm_rows(rows):
+    """rows: iterable of (result text, iterable of literal texts) -> sorted list of (result, tuple(literals))"""
+    import re, itertools
+    out = set()
+    for res, lits in rows:
+        ints = {}
+        rest = []
+        variants = []
+        for l in lits:
+            m = re.fullmatch(r"(-?\d+) (le|lt|ge|gt|eq|ne) (.+)", l)
+            if m and not re.fullmatch(r"-?\d+", m.group(3)):
+                ints.setdefault(m.group(3), []).append((_FLIP[m.group(2)], int(m.group(1))))
+                continue
+            m = re.fullmatch(r"(.+) (le|lt|ge|gt|eq|ne) (-?\d+)", l)
+            if m:
+                ints.setdefault(m.group(1), []).append((m.group(2), int(m.group(3))))
+                continue
+            m = re.fullmatch(r"(.+) not in \{(-?\d+(?:,-?\d+)*)\}", l)
+            if m:
+                for v in m.group(2).split(","):
+                    ints.setdefault(m.group(1), []).append(("ne", int(v)))
+                continue
+            m = re.fullmatch(r"(.+) in \{(-?\d+(?:,-?\d+)*)\}", l)
+            if m:
+                ints.setdefault(m.group(1), []).append(("in", [int(x) for x in m.group(2).split(",")]))
+                continue
+            m = re.fullmatch(r"(.+) in \{([A-Za-z_]\w*(?:,[A-Za-z_]\w*)+)\}", l)
+            if m:
+                variants.append([("%s in {%s}" % (m.group(1), v)) for v in m.group(2).split(",")])
+                continue
+            rest.append(l)
+        for subj, cons in ints.items():
+            ivs = [_subj_range(subj)]
+            for (op, c) in cons:
+                if op == "in":
+                    nv = []
+                    for v in c:
+                        nv += _iv_apply(ivs, "eq", v)
+                    ivs = sorted(set(nv))
+                else:
+                    ivs = _iv_apply(ivs, op, c)
+            # merge adjacent
+            ivs.sort()
+            merged = []
+            for (a, b) in ivs:
+                if merged and a <= merged[-1][1] + 1:
+                    merged[-1] = (merged[-1][0], max(merged[-1][1], b))
+                else:
+                    merged.append((a, b))
+            rest.append("%s in %s" % (subj, "|".join("[%d..%d]" % iv for iv in merged) or "[]"))
+        for combo in itertools.product(*variants) if variants else [()]:
+            out.add((res, tuple(sorted(rest + list(combo)))))
+    return sorted(out)
